@@ -199,7 +199,7 @@ func c18Loop(out *emit.Out, scenario string, in c18Input) {
 	}
 	out.Add(emit.Case{Scenario: scenario, Trivial: len(in.Hellos) < 2, Input: in, Direct: direct,
 		Observed: map[string]interface{}{"responses": resps},
-		Coq: fmt.Sprintf("LoopCase %s %s [%s] [%s]", emit.Bytes(in.Secret), emit.Bytes([]byte(dp.Net.Addr(0).String())), strings.Join(hellosCoq, ";\n   "), strings.Join(rs, ";\n   "))})
+		Coq:      fmt.Sprintf("LoopCase %s %s [%s] [%s]", emit.Bytes(in.Secret), emit.Bytes([]byte(dp.Net.Addr(0).String())), strings.Join(hellosCoq, ";\n   "), strings.Join(rs, ";\n   "))})
 }
 
 func runC18(p params) error {
